@@ -46,6 +46,9 @@ func opsDomain(thorough bool) []opVal {
 		{"a_f1", "array", nil, ugo.Array{ugo.Float(1)}}, {"a_u1", "array", nil, ugo.Array{ugo.Uint(1)}},
 		{"m_empty", "map", nil, ugo.Map{}}, {"m_i1", "map", nil, ugo.Map{"k": ugo.Int(1)}}, {"m_f1", "map", nil, ugo.Map{"k": ugo.Float(1)}},
 		{"err", "error", nil, &ugo.Error{Name: "E", Message: "m"}},
+		// integers float64 cannot hold exactly, next to the floats they round to
+		{"i2p53p1", "int", nil, ugo.Int(9007199254740993)}, {"u2p53p1", "uint", nil, ugo.Uint(9007199254740993)}, {"f2p53", "float", nil, ugo.Float(9007199254740992)},
+		{"f2p63", "float", nil, ugo.Float(9223372036854775808)},
 		// containers holding undefined, maps with other keys of the same size
 		{"m_ku", "map", nil, ugo.Map{"k": ugo.Undefined}}, {"m_j1", "map", nil, ugo.Map{"j": ugo.Int(1)}}, {"m_ju", "map", nil, ugo.Map{"j": ugo.Undefined}},
 		{"a_u", "array", nil, ugo.Array{ugo.Undefined}}, {"a_i1u", "array", nil, ugo.Array{ugo.Int(1), ugo.Undefined}},
@@ -92,7 +95,7 @@ var opsLits = map[string]string{
 	"a_empty": "[]", "a_i1": "[1]", "a_f1": "[1.0]", "a_u1": "[1u]", "a_nest": "[[1]]", "a_nestf": "[[1.0]]",
 	"a_i1i2": "[1, 2]", "a_true": "[true]", "a_undef": "[undefined, undefined]", "a_c1": "['\\x01']",
 	"m_empty": "{}", "m_i1": "{k: 1}", "m_f1": "{k: 1.0}", "m_u1": "{k: 1u}", "m_nest": "{k: [1]}", "m_nestf": "{k: [1.0]}",
-	"m_k2": "{j: 1, k: undefined}", "m_ku": "{k: undefined}", "m_j1": "{j: 1}", "m_ju": "{j: undefined}", "a_u": "[undefined]", "a_i1u": "[1, undefined]", "m_true": "{k: true}",
+	"m_k2": "{j: 1, k: undefined}", "i2p53p1": "9007199254740993", "u2p53p1": "9007199254740993u", "f2p53": "9007199254740992.0", "f2p63": "9223372036854775808.0", "m_ku": "{k: undefined}", "m_j1": "{j: 1}", "m_ju": "{j: undefined}", "a_u": "[undefined]", "a_i1u": "[1, undefined]", "m_true": "{k: true}",
 }
 
 // projection of a result, the same string the table carries as "script"
